@@ -3,9 +3,9 @@
 From V Require Import Base.Util Model.Perm Model.View.
 
 Record view_case := {
-  vc_src : vsrc;               (* the merged schema, "__" names left out *)
+  vc_src : vsrc;               (* the merged schema, introspection types included *)
   vc_perm : operm;
-  vc_obs : tmap                (* FilterSchema(schema).Types: type name -> field names, "__" names left out *)
+  vc_obs : tmap                (* FilterSchema(schema).Types: type name -> field names *)
 }.
 
 Fixpoint af_size (a : af) : nat := match a with AF _ subs => S (fold_left (fun n kv => n + af_size (snd kv)) subs 0) end.
@@ -16,8 +16,11 @@ Definition tmap_eqb (a b : tmap) : bool :=
   seteq_str (keys a) (keys b) && Nat.eqb (List.length a) (List.length b) &&
   forallb (fun kv => match lookup (fst kv) b with Some fs => multiset_eqb String.eqb (snd kv) fs | None => false end) a.
 
+(* the clause is about the schema proper: the introspection meta-fields and meta-types ("__" names) are not part of a
+   permission set's alphabet (auth.go:22 answers for them without consulting the tree) and belong to C17 *)
 Definition selectable_pairs (reach : seen_t) (S : vsrc) : list (string * string) :=
-  flat_map (fun t => flat_map (fun f => if selectable reach S (vt_name t) f then [(vt_name t, f)] else []) (all_fields t)) (v_types S).
+  flat_map (fun t => if starts_uu (vt_name t) then [] else
+     flat_map (fun f => if negb (starts_uu f) && selectable reach S (vt_name t) f then [(vt_name t, f)] else []) (all_fields t)) (v_types S).
 
 Definition check_view_case (c : view_case) : list (string * bool) :=
   let S := vc_src c in
@@ -30,7 +33,7 @@ Definition check_view_case (c : view_case) : list (string * bool) :=
   let sel_n := selectable_pairs narrow S in
   [ ("corr.view", tmap_eqb model (vc_obs c));
     (* the property on the observed view *)
-    ("prop.c18.view_sound", forallb (fun kv => forallb (fun f => selectable wide S (fst kv) f) (snd kv)) (vc_obs c));
+    ("prop.c18.view_sound", forallb (fun kv => starts_uu (fst kv) || forallb (fun f => starts_uu f || selectable wide S (fst kv) f) (snd kv)) (vc_obs c));
     ("prop.c18.view_complete_field_paths", forallb (fun tf => view_visible (vc_obs c) (fst tf) (snd tf)) sel_n);
     ("prop.c18.view_complete", forallb (fun tf => view_visible (vc_obs c) (fst tf) (snd tf)) sel_w);
     (* true = no field is selectable only through a fragment on a type that is not itself the type of a permitted field *)
